@@ -8,6 +8,7 @@ import (
 	"fmt"
 	"go/ast"
 	"go/constant"
+	"go/token"
 	"go/types"
 	"sort"
 	"strings"
@@ -261,6 +262,7 @@ func init() {
 		checkTreeHandedOver(r, prog, a, "c01")
 		checkMatchesSubject(r, prog, a, "c01")
 		checkInOnString(r, prog, a, "c01")
+		checkSliceArrayAlike(r, prog, a, "c01")
 		checkRegexpSource(r, prog, a, "c01")
 		r.importing = "C14"
 		checkUnorderedSources(r, prog, a, "c14") // what an expression denotes does not depend on Go's map order
@@ -276,6 +278,7 @@ func init() {
 		checkJSONNumber(r, prog, a, "c02")
 		checkCoercionErrors(r, prog, a, "c02")
 		checkElementTransparency(r, prog, a, "c02")
+		checkDerefHelpers(r, prog, "c02")
 		r.importing = "C09"
 		checkComparatorCalls(r, prog, a, a.EvalSet)
 		r.importing = "C05"
@@ -294,4 +297,92 @@ func init() {
 		r.Explain = "Agreement with an independent interpreter over all expressions × all data is a run-time relation and is NOT decided. Decided, as structural necessary conditions: every (node type, operator constant) the parser's actions can produce reaches a real handler in the evaluator (never the `Invalid AST node` fallback); every operator/binding-mode constant the grammar uses is declared and each binding mode sets exactly the names the evaluator binds; the tree evaluated is the tree parsed; and each clause of the statement's semantics — selectors walk the datum through one gateway by path parts (C07, C05), each operator compares in the value's own type (C02) with exact complements (C04) and the documented absent-key table (C05), not/and/or/any/all combine left to right (C03, C06) — holds by the imported rule sets, whose obligations are listed as shared."
 		r.Assume = append(r.Assume, "the documented semantics are the clauses transcribed in the spec tables of C02–C07")
 	})
+}
+
+// checkSliceArrayAlike: wherever an evaluation function singles out values of kind Slice, it singles out those of kind
+// Array the same way (the same case list, or a case of its own that falls through to the slice's): lists are lists. A
+// belief the code states in every kind switch it has (`in`, `is empty`, any/all, Filter); one switch that forgets the
+// array contradicts the others.
+func checkSliceArrayAlike(r *Run, prog *Program, a *Anchors, pfx string) {
+	const kSliceC, kArrayC = 23, 17
+	set := map[*ssa.Function]bool{}
+	for f := range a.EvalSet {
+		set[f] = true
+	}
+	for f := range a.ExecSet {
+		set[f] = true
+	}
+	type test struct {
+		x      ssa.Value
+		target *ssa.BasicBlock
+		pos    token.Pos
+	}
+	sameSubject := func(x, y ssa.Value) bool {
+		if x == y {
+			return true
+		}
+		cx, okx := x.(*ssa.Call)
+		cy, oky := y.(*ssa.Call)
+		if okx && oky && cx.Call.StaticCallee() != nil && cx.Call.StaticCallee() == cy.Call.StaticCallee() && len(cx.Call.Args) == 1 && len(cy.Call.Args) == 1 {
+			return cx.Call.Args[0] == cy.Call.Args[0]
+		}
+		return false
+	}
+	reaches := func(from, to *ssa.BasicBlock) bool {
+		b := from
+		for i := 0; i < 6 && b != nil; i++ {
+			if b == to {
+				return true
+			}
+			if len(b.Succs) != 1 {
+				return false
+			}
+			b = b.Succs[0]
+		}
+		return false
+	}
+	n := 0
+	var fns []*ssa.Function
+	for f := range set {
+		if prog.InModule(f) && len(f.Blocks) > 0 {
+			fns = append(fns, f)
+		}
+	}
+	sort.Slice(fns, func(i, j int) bool { return fns[i].String() < fns[j].String() })
+	for _, fn := range fns {
+		var slices, arrays []test
+		for _, b := range fn.Blocks {
+			ifi, ok := b.Instrs[len(b.Instrs)-1].(*ssa.If)
+			if !ok {
+				continue
+			}
+			bo, ok := ifi.Cond.(*ssa.BinOp)
+			if !ok || bo.Op != token.EQL || !namedIs(bo.X.Type(), "reflect", "Kind") {
+				continue
+			}
+			c, ok := bo.Y.(*ssa.Const)
+			if !ok || c.Value == nil {
+				continue
+			}
+			v, _ := constant.Int64Val(c.Value)
+			switch v {
+			case kSliceC:
+				slices = append(slices, test{bo.X, b.Succs[0], bo.Pos()})
+			case kArrayC:
+				arrays = append(arrays, test{bo.X, b.Succs[0], bo.Pos()})
+			}
+		}
+		for k, s := range slices {
+			n++
+			ok := false
+			for _, ar := range arrays {
+				if sameSubject(s.x, ar.x) && (ar.target == s.target || reaches(ar.target, s.target)) {
+					ok = true
+				}
+			}
+			r.Check(pfx+".slice-array-alike", fmt.Sprintf("%s:slice-test#%d", fn.Name(), k+1), prog.pos(s.pos), ok,
+				fn.Name()+" singles out values of kind Slice here but not, in the same way, those of kind Array: arrays are lists everywhere else")
+		}
+	}
+	r.Check(pfx+".slice-array-alike", "census", prog.pos(a.Dispatch.Pos()), n >= 3, fmt.Sprintf("info: %d tests for kind Slice examined", n))
 }
